@@ -7,8 +7,11 @@
    Go `int` values (P, R, masks) are Z.  `enc.P & m` on Go's two's-complement ints is Z.land
    (Z.land is the two's-complement AND on arbitrary integers).  Password matching itself
    (validateOwnerPassword / validateUserPassword) and the AES-256 /Perms check (validatePermissions)
-   are outside this model: their boolean results are inputs. *)
-From Coq Require Import ZArith List Bool.
+   are outside this model: their boolean results are inputs.  The passwords themselves (ctx.OwnerPW,
+   ctx.UserPW) are inputs as RAW byte strings (list N): the only thing the access path does with them
+   besides matching is comparing them with "" -- Generated.noCredentialsSupplied (extracted from
+   handlePermissions) and handleUnencryptedFile. *)
+From Coq Require Import ZArith NArith List Bool.
 From PV Require Import C26.Generated.
 Import ListNotations.
 Open Scope Z_scope.
@@ -37,12 +40,13 @@ Inductive outcome :=
 (* read.go: handlePermissions(ctx)
      ok, err := validatePermissions(ctx)   -- permsOK (true for R outside {5,6}); err is outside the model
      if !ok { return errInvalidPermissions }
-     if ctx.OwnerPW == "" && ctx.UserPW == "" { return nil }
+     if ctx.OwnerPW == "" && ctx.UserPW == "" { return nil }     -- Generated.noCredentialsSupplied (the
+                                                                    generator checks the other five statements)
      if !hasNeededPermissions(ctx.Cmd, ctx.E) { return ErrPermissionDenied }
      return nil *)
-Definition handlePermissions (permsOK opwEmpty upwEmpty : bool) (mode P R : Z) : outcome :=
+Definition handlePermissions (permsOK : bool) (opw upw : list N) (mode P R : Z) : outcome :=
   if negb permsOK then InvalidPerms
-  else if opwEmpty && upwEmpty then Proceed
+  else if noCredentialsSupplied opw upw then Proceed
   else if negb (hasNeededPermissions mode P R) then Denied
   else Proceed.
 
@@ -52,27 +56,28 @@ Definition handlePermissions (permsOK opwEmpty upwEmpty : bool) (mode P R : Z) :
      if ownerOK && !needsOwnerAndUserPassword(cmd) { validatePermissions ...; return nil }
      if !userOK { return ErrWrongPassword }
      return handlePermissions(ctx) *)
-Definition setupAccess (ownerOK userOK permsOK opwEmpty upwEmpty : bool) (mode P R : Z) : outcome :=
+Definition setupAccess (ownerOK userOK permsOK : bool) (opw upw : list N) (mode P R : Z) : outcome :=
   if negb ownerOK && needsOwnerAndUserPassword mode then OwnerRequired
   else if ownerOK && negb (needsOwnerAndUserPassword mode) then
     (if permsOK then Proceed else InvalidPerms)
   else if negb userOK then WrongPassword
-  else handlePermissions permsOK opwEmpty upwEmpty mode P R.
+  else handlePermissions permsOK opw upw mode P R.
 
-(* read.go: handleUnencryptedFile(ctx) *)
-Definition handleUnencryptedFile (opwEmpty : bool) (mode : Z) : outcome :=
+(* read.go: handleUnencryptedFile(ctx); `ctx.OwnerPW == ""` on the raw string *)
+Definition handleUnencryptedFile (opw : list N) (mode : Z) : outcome :=
   if (mode =? CM_DECRYPT) || (mode =? CM_SETPERMISSIONS) then NotEncrypted
   else if negb (mode =? CM_ENCRYPT) then Proceed
-  else if opwEmpty then OwnerRequired
+  else if pw_empty opw then OwnerRequired
   else Proceed.
 
 (* read.go: checkForEncryption(c, ctx); encrypted = (ctx.Encrypt != nil) *)
-Definition checkForEncryption (encrypted ownerOK userOK permsOK opwEmpty upwEmpty : bool) (mode P R : Z) : outcome :=
-  if negb encrypted then handleUnencryptedFile opwEmpty mode
+Definition checkForEncryption (encrypted ownerOK userOK permsOK : bool) (opw upw : list N) (mode P R : Z) : outcome :=
+  if negb encrypted then handleUnencryptedFile opw mode
   else if rejectsEncrypted mode then EncryptedUnsupported
-  else setupAccess ownerOK userOK permsOK opwEmpty upwEmpty mode P R.
+  else setupAccess ownerOK userOK permsOK opw upw mode P R.
 
 (* The situation the property talks about: an encrypted document, opened with its non-empty user
-   password only (the owner password is not supplied or wrong), /Perms consistent. *)
+   password only (the owner password is not supplied or wrong), /Perms consistent.  The witness user
+   password is a single space (0x20): non-empty, although blank. *)
 Definition userOnlyAccess (mode P R : Z) : outcome :=
-  checkForEncryption true false true true true false mode P R.
+  checkForEncryption true false true true [] [32%N] mode P R.
